@@ -37,7 +37,9 @@ Definition kind_class (k : tok_kind) : tcl :=
       | KRepeat => CKw KwRepeat | KUntil => CKw KwUntil | KEndRepeat => CKw KwEndRepeat
       | KExit => CKw KwExit | KReturn => CKw KwReturn
       | KEndFunctionBlock | KEndProgram | KEndFunction => CKw KwEndPou
-      | KPeriod | KLeftBracket | KRightBracket | KHash | KRange => CSel
+      | KBool => CBoolT
+      | KHash => CHash
+      | KPeriod | KLeftBracket | KRightBracket | KRange => CSel
       | _ => COther
       end
   end.
